@@ -81,21 +81,41 @@ func (it *Generator) M__next__() (Object, error) {
 // generator, it must be called with None as the argument, because
 // there is no yield expression that could receive the value.
 func (it *Generator) Send(arg Object) (Object, error) {
+	return it.resume(arg, nil)
+}
+
+// resume runs the frame up to its next yield: with exc == nil the
+// suspended yield expression evaluates to arg, otherwise exc is raised
+// at the point where the generator was paused
+func (it *Generator) resume(arg Object, exc *Exception) (Object, error) {
 	if it.Running {
 		return nil, ExceptionNewf(ValueError, "generator already executing")
 	}
 	if it.Frame.Lasti == 0 {
+		if exc != nil {
+			// Raised before the first instruction, where nothing
+			// can catch it: the body never runs and nothing of
+			// the code is left to run
+			it.Frame.Lasti = int32(len(it.Frame.Code.Code))
+			return nil, exc
+		}
 		if arg != None {
 			return nil, ExceptionNewf(TypeError, "can't send non-None value to a just-started generator")
 		}
 	} else {
 		// If already returned a non yield value then stop
 		if !it.Frame.Yielded {
+			if exc != nil {
+				return nil, exc
+			}
 			return nil, StopIteration
 		}
-		// Push arg onto the frame's value stack
-		it.Frame.Stack = append(it.Frame.Stack, arg)
+		if exc == nil {
+			// Push arg onto the frame's value stack
+			it.Frame.Stack = append(it.Frame.Stack, arg)
+		}
 	}
+	it.Frame.Throw = exc
 	it.Running = true
 	res, err := VmRunFrame(it.Frame)
 	it.Running = false
@@ -124,7 +144,29 @@ func (it *Generator) Send(arg Object) (Object, error) {
 // not catch the passed-in exception, or raises a different exception,
 // then that exception propagates to the caller.
 func (it *Generator) Throw(args Tuple, kwargs StringDict) (Object, error) {
-	return nil, NotImplementedError
+	var typ, val, tb Object = None, None, None
+	if err := UnpackTuple(args, kwargs, "throw", 1, 3, &typ, &val, &tb); err != nil {
+		return nil, err
+	}
+	switch t := typ.(type) {
+	case *Exception:
+		if val != None {
+			return nil, ExceptionNewf(TypeError, "instance exception may not have a separate value")
+		}
+		return it.resume(nil, t)
+	case *Type:
+		if ExceptionClassCheck(t) {
+			if v, ok := val.(*Exception); ok && v.Type().IsSubtype(t) {
+				return it.resume(nil, v)
+			} else if vt, ok := val.(Tuple); ok {
+				return it.resume(nil, exceptionNew(t, vt))
+			} else if val != None {
+				return it.resume(nil, exceptionNew(t, Tuple{val}))
+			}
+			return it.resume(nil, exceptionNew(t, nil))
+		}
+	}
+	return nil, ExceptionNewf(TypeError, "exceptions must be classes or instances deriving from BaseException, not %s", typ.Type().Name)
 }
 
 // generator.close()
@@ -138,7 +180,14 @@ func (it *Generator) Throw(args Tuple, kwargs StringDict) (Object, error) {
 // caller. close() does nothing if the generator has already exited
 // due to an exception or normal exit.
 func (it *Generator) Close() (Object, error) {
-	return nil, NotImplementedError
+	_, err := it.resume(nil, exceptionNew(GeneratorExit, nil))
+	if err == nil {
+		return nil, ExceptionNewf(RuntimeError, "generator ignored GeneratorExit")
+	}
+	if IsException(StopIteration, err) || IsException(GeneratorExit, err) {
+		return None, nil
+	}
+	return nil, err
 }
 
 // Check interface is satisfied
